@@ -450,8 +450,16 @@ func runCode128() {
 	for n := 77; n <= 81; n++ {
 		list = append(list, strings.Repeat("7", n), strings.Repeat("A", n), strings.Repeat("a", n), strings.Repeat("\x05", n), roll[:n], strings.Repeat("12a", 27)[:n])
 	}
+	// many code-set switches: a content of 80 characters can need up to 160 symbol characters (a switch
+	// or shift before every character), far beyond 103, where the mod-103 check weights come round
+	for _, unit := range []string{"a\x01", "\x01a", "ab\x01\x02", "a\x011", "12\x01a", "a\x01\x7f", "`\x1f"} {
+		long := strings.Repeat(unit, 80)
+		for _, n := range []int{40, 50, 51, 52, 53, 60, 70, 78, 79, 80} {
+			list = append(list, long[:n])
+		}
+	}
 	list = uniq(list)
-	sweep(fmt.Sprintf("Code 128: %d contents: every ASCII character, every ordered ASCII pair, digit runs of length 1..14 between 5x5 neighbours, lengths 77..81 over six fillers", len(list)), len(list), 100, func(l *mc.Local, i int) {
+	sweep(fmt.Sprintf("Code 128: %d contents: every ASCII character, every ordered ASCII pair, digit runs of length 1..14 between 5x5 neighbours, lengths 77..81 over six fillers, contents of 40..80 characters alternating between code sets A and B (up to 160 symbol characters)", len(list)), len(list), 100, func(l *mc.Local, i int) {
 		run(l, "code128", list[i], -1, false, "own")
 	})
 	// forced code sets
